@@ -425,7 +425,11 @@ func init() {
 	reg("(*crypto/rand.reader).Read", func(w *World, t *Thread, fr *frame, fn *ssa.Function, args []Value) Value {
 		b := args[1].([]Value)
 		for i := range b {
-			w.store(&b[i], w.tt.Fresh("crand", 8))
+			if v, ok := w.ext["fixrandom"]; ok {
+				w.store(&b[i], v.(*Term))
+			} else {
+				w.store(&b[i], w.tt.Fresh("crand", 8))
+			}
 		}
 		return Tuple{w.tt.BV(64, uint64(len(b))), w.nilError()}
 	})
